@@ -61,6 +61,29 @@ COARSER = {'month': ['month', 'quarter', 'year', 'decade', 'century', 'millenniu
            'millennium': ['millennium'], 'week': ['week', 'isoyear']}
 
 
+class Raised:
+    """what a library function raised: compares unequal to every expected value"""
+    def __init__(self, e):
+        self.text = f'{type(e).__name__}: {e}'
+
+    def __repr__(self):
+        return f'<raised {self.text}>'
+
+    def __gt__(self, other): return True
+    def __lt__(self, other): return True
+
+
+def _total(fn):
+    def wrapped(*args, **kw):
+        try:
+            return fn(*args, **kw)
+        except LookupError:
+            raise
+        except Exception as e:  # noqa: the library function under test raised: that is an observation, not a harness failure
+            return Raised(e)
+    return wrapped
+
+
 def check_dates(yearrange):
     y0, y1 = yearrange
     bad = []
@@ -68,6 +91,7 @@ def check_dates(yearrange):
     d = date(y0, 1, 1)
     prev = {u: None for u in UNITS}
     one = datetime.timedelta(days=1)
+    call, binop = _total(globals()['call']), _total(globals()['binop'])
     while d.year < y1:
         n += 1
         for u in UNITS:
@@ -287,7 +311,9 @@ def check_casts(res):
                     res.violation(f'h18:cast-type:{fn}', 'a cast returns a value of the target type or NULL', {'cast': fn, 'value': repr(v)[:60]}, repr(got), want.__name__)
     # converted values
     table = [('int', '12', 12), ('int', D('1.5'), 1), ('int', True, 1), ('decimal', '1.5', D('1.5')), ('decimal', 3, D(3)), ('str', 12, '12'), ('str', True, 'TRUE'), ('str', False, 'FALSE'),
-             ('date', '2024-02-29', date(2024, 2, 29)), ('date', '2024-02-30', None), ('int', 'abc', None), ('decimal', 'abc', None), ('bool', 0, False), ('bool', 'x', True), ('date', 7, None)]
+             ('date', '2024-02-29', date(2024, 2, 29)), ('date', '2024-02-30', None),
+             # the text of a date is year-month-day in digits separated by dashes (padding optional); other ISO 8601 spellings are not dates in BQL
+             ('date', '2024-2-9', date(2024, 2, 9)), ('date', '20240229', None), ('date', '2024-W09-4', None), ('date', '2024-060', None), ('date', '2024-02-29T10:00', None), ('int', 'abc', None), ('decimal', 'abc', None), ('bool', 0, False), ('bool', 'x', True), ('date', 7, None)]
     for fn, v, exp in table:
         res.case(('castval', fn, repr(v)))
         ops = [qc.EvalConstant(v)]
